@@ -560,6 +560,108 @@ def _judge_export(cls, kind, sym, fields, rv, sym_of):
 # compile()
 # ---------------------------------------------------------------------------
 
+def _reserved_names(ctx, model, ce, compile_fn):
+    """The namespace the generated lambda runs in predefines some names, and
+    _compile takes every predefined name out of the parameter list.  That is
+    sound for the *module* names the library's own function nodes refer to
+    (math.sin is Lookup(Variable("math"), "sin")); any other predefined name
+    swallows an ordinary free variable of that name (e, pi, gamma ...): it
+    stops being a parameter and the code silently reads the namespace's value."""
+    m = ce.module
+    entries = []       # (key constant or None, value expr, node)
+    unbounded = []
+
+    def dict_entries(v, node):
+        if isinstance(v, ast.Dict):
+            for k, val in zip(v.keys, v.values):
+                if k is None:
+                    unbounded.append(node)
+                elif isinstance(k, ast.Constant) and isinstance(k.value, str):
+                    entries.append((k.value, val, node))
+                else:
+                    unbounded.append(node)
+            return True
+        if isinstance(v, ast.Call) and ast.unparse(v.func) == "dict" and \
+                not v.args:
+            for kw in v.keywords:
+                if kw.arg is None:
+                    unbounded.append(node)
+                else:
+                    entries.append((kw.arg, kw.value, node))
+            return True
+        if isinstance(v, (ast.DictComp,)):
+            unbounded.append(node)
+            return True
+        return False
+
+    cm = model.lookup(ce, "context")
+    if cm is None or cm.kind != "func":
+        raise AnalysisError("CompiledExpression.context not found")
+    cfn = model.inlined(cm.node)
+    local = {}
+    for st in ast.walk(cfn):
+        if isinstance(st, ast.Assign) and len(st.targets) == 1 and isinstance(
+                st.targets[0], ast.Name):
+            local[st.targets[0].id] = st.value
+    n_ret = 0
+    for st in ast.walk(cfn):
+        if isinstance(st, ast.Return) and st.value is not None:
+            n_ret += 1
+            v = st.value
+            if isinstance(v, ast.Name) and v.id in local:
+                v = local[v.id]
+            if not dict_entries(v, st):
+                raise AnalysisError("CompiledExpression.context: returned value "
+                                    "is not a dict display the rule can read")
+    if not n_ret:
+        raise AnalysisError("CompiledExpression.context returns nothing")
+    # stores and bulk updates into the namespace, in context() and _compile():
+    # the namespace is whatever is bound to the (copied) result of context()
+    ns_names = set(local)
+    for st in ast.walk(compile_fn):
+        if isinstance(st, ast.Assign) and len(st.targets) == 1 and isinstance(
+                st.targets[0], ast.Name) and any(
+                isinstance(c, ast.Call) and ast.unparse(c.func).endswith(
+                    ".context") for c in ast.walk(st.value)):
+            ns_names.add(st.targets[0].id)
+    for f in (cfn, compile_fn):
+        for st in ast.walk(f):
+            if isinstance(st, ast.Assign):
+                for t in st.targets:
+                    if isinstance(t, ast.Subscript) and isinstance(
+                            t.value, ast.Name) and t.value.id in ns_names:
+                        k = t.slice
+                        if isinstance(k, ast.Constant) and isinstance(
+                                k.value, str):
+                            entries.append((k.value, st.value, st))
+                        else:
+                            unbounded.append(st)
+            if isinstance(st, ast.Call) and isinstance(st.func, ast.Attribute) \
+                    and st.func.attr == "update" and isinstance(
+                        st.func.value, ast.Name) and st.func.value.id in ns_names:
+                unbounded.append(st)
+
+    def is_module(val, key):
+        if not isinstance(val, ast.Name):
+            return False
+        imp = m.imports.get(val.id)
+        return imp is not None and imp[0] == "module" and val.id == key
+    bad = sorted({k for k, val, _ in entries if not is_module(val, k)})
+    ctx.ob("T/compile/predefined-names-are-module-names",
+           not bad and not unbounded, m.loc(cm.node),
+           "the generated code's namespace predefines only "
+           f"{sorted({k for k, _, _ in entries})}, the modules the library's own "
+           "function nodes look things up in" if not bad and not unbounded else
+           "the namespace of the generated code predefines " + (
+               "an open-ended set of names (built from another namespace)"
+               if unbounded else f"{bad}") +
+           ", and _compile() drops every predefined name from the parameter "
+           "list: a free variable called e, pi, gamma or inf is no longer a "
+           "parameter of the compiled function (wrong argument count, or the "
+           "namespace's value used silently)",
+           {"predefined": sorted({k for k, _, _ in entries})})
+
+
 def _compile(ctx, model):
     ce = model.cls(f"{COMP}:CompiledExpression")
     mem = ce.members.get("_compile")
@@ -707,6 +809,7 @@ def _compile(ctx, model):
            if excl_listed and excl_ctx else
            "listed variables / context names are not removed from the free "
            "variables")
+    _reserved_names(ctx, model, ce, fn)
     ctx.ob("P/compile/lambda-text", lam, loc,
            "lambda <all variables>: <expression text>" if lam else
            "the compiled text is not 'lambda <str of all variables, comma "
